@@ -200,6 +200,36 @@ def execute(case):
                         bad("read-pattern-not-current-rpc", f"cached pixel reads {pat} != uncached {ref_pattern}")
             except Exception as e:
                 bad("cached-load-raises", f"loading the cached tree: {type(e).__name__}: {str(e)[:120]}", exc=type(e).__name__)
+        # a fresh cached tree: the very FIRST pixel load reads exactly what an uncached tree's load reads (nothing is fetched or
+        # verified lazily on first use), and an open with use_cache=True AND create_cache=True uses the usable cache as well
+        if made and tree is not None and kind == "mcfs":
+            try:
+                fresh = prod.open(use_cache=True, records_per_chunk=rpc_r)
+                pat = load_pattern(fresh, spec, kind)
+                if pat != ref_pattern:
+                    bad("first-load-read-pattern", f"first pixel load of a cached tree reads {pat}, an uncached tree's load reads {ref_pattern}")
+                # rows 1.. of a fresh tree (a selection away from the start of the file)
+                fresh = prod.open(use_cache=True, records_per_chunk=rpc_r)
+                for im in spec["images"]:
+                    g = harness.group_name(im["pol"], im["scan"])
+                    vfs.reset_log()
+                    fresh[f"imagery/{g}/data"].isel(rows=slice(im["lines"] - 1, None)).values
+                    got = [(e[3], e[4]) for e in vfs.LOG if e[0] == "read"]
+                    vfs.reset_log()
+                    ref_tree[f"imagery/{g}/data"].isel(rows=slice(im["lines"] - 1, None)).values
+                    want = [(e[3], e[4]) for e in vfs.LOG if e[0] == "read"]
+                    if got != want:
+                        bad("first-load-read-pattern", f"first load of the last line of {g} from a cached tree reads {got}, from an uncached tree {want}")
+                with cachelab.recording():
+                    both = prod.open(use_cache=True, create_cache=True, records_per_chunk=rpc_r)
+                t_img = touched(cachelab.local_events(), list(vfs.LOG), is_img)
+                if t_img:
+                    bad("image-read-at-open-despite-cache", f"use_cache=True, create_cache=True with a usable cache: image file touched during the open: {t_img[:2]}", options="use+create")
+                d = treesnap.diff(ref, treesnap.snapshot(both))
+                if d:
+                    bad("cached-tree-differs", f"use_cache=True, create_cache=True: {treesnap.short(d, 2)}", options="use+create")
+            except Exception as e:
+                bad("cached-load-raises", f"fresh cached tree: {type(e).__name__}: {str(e)[:120]}", exc=type(e).__name__)
         # the same cache used again in the same process with another rpc: still the current call's rpc
         if made and tree is not None:
             rpc_b = {1: 3, 3: 1024, 1024: 1}[rpc_r]
@@ -315,7 +345,7 @@ def run(res, tier, seed):
         "configurations = level {1.1 two ScanSAR images, 1.5 two polarisations} x producer {none, open option, CLI adjacent, CLI into"
         " user-cache dir, option+CLI} x filesystem {mcfs+storage_options, local path, file://, memory://} x rpc_write {1,2,4096} x"
         " rpc_read {1,3,1024}, plus per-line values {identical on all lines, drifting by one unit per line, piecewise constant over 22..23 and 92..93 lines (flags set and cleared again)} x producer x {mcfs, local};" " 12 configurations in which the image files are rewritten (same bytes, newer modification time) after their caches were made;" " 16 configurations again in an interpreter whose locale encoding is ASCII;" " each configuration = produce caches, uncached open,"
-        " cached open, full loads, poisoned-index opens; states = configurations, transitions = opens executed."
+        " cached open, full loads, first loads (all lines / last line) of fresh cached trees, use_cache+create_cache open, poisoned-index opens; states = configurations, transitions = opens executed."
     )
     res.assumptions = ["I/O on memory:// cannot be observed (only tree equality is checked there)", "the adjacent index of a non-local product is produced by the CLI on a local copy and uploaded (documented workflow)"]
     n_poison = 0
